@@ -56,6 +56,21 @@ func main() {
 	fmt.Println()
 }
 
+// pureExpr: identifier / selector / parenthesised chains (re-evaluating them has no side effects)
+func pureExpr(e ast.Expr) bool {
+	switch x := e.(type) {
+	case *ast.Ident:
+		return true
+	case *ast.ParenExpr:
+		return pureExpr(x.X)
+	case *ast.SelectorExpr:
+		return pureExpr(x.X)
+	case *ast.StarExpr:
+		return pureExpr(x.X)
+	}
+	return false
+}
+
 func isGenerated(f *ast.File) bool {
 	for _, cg := range f.Comments {
 		if cg.Pos() < f.Package && strings.Contains(cg.Text(), "Code generated") {
@@ -187,13 +202,59 @@ func instrument(p pkgInfo, overlay map[string]string, stats map[string]int) {
 					stats["atomic_imports"]++
 				}
 			case *ast.CallExpr:
-				if se, ok := n.Fun.(*ast.SelectorExpr); ok && se.Sel.Name == "MapKeys" && len(n.Args) == 0 {
+				if se, ok := n.Fun.(*ast.SelectorExpr); ok && (se.Sel.Name == "MapKeys" || se.Sel.Name == "MapRange") && len(n.Args) == 0 {
 					if tv, ok := info.Types[se.X]; ok && tv.Type.String() == "reflect.Value" {
 						usedRT = true
-						c.Replace(&ast.CallExpr{Fun: &ast.SelectorExpr{X: ast.NewIdent("vrt"), Sel: ast.NewIdent("MapKeys")}, Args: []ast.Expr{se.X, site(n)}})
-						stats["mapkeys_seams"]++
+						c.Replace(&ast.CallExpr{Fun: &ast.SelectorExpr{X: ast.NewIdent("vrt"), Sel: ast.NewIdent(se.Sel.Name)}, Args: []ast.Expr{se.X, site(n)}})
+						stats[strings.ToLower(se.Sel.Name)+"_seams"]++
 					}
 				}
+			case *ast.RangeStmt:
+				tv, ok := info.Types[n.X]
+				if !ok || tv.Type == nil {
+					return true
+				}
+				if _, isMap := tv.Type.Underlying().(*types.Map); !isMap {
+					return true
+				}
+				pos := fset.Position(n.Pos())
+				if !pureExpr(n.X) {
+					stats["unseamed_range_over_map"]++
+					fmt.Printf("UNSEAMED map iteration (range over a non-trivial map expression) at %s:%d\n", names[i], pos.Line)
+					return true
+				}
+				usedRT = true
+				stats["range_over_map_seams"]++
+				keyID := ast.NewIdent("vrtKey__")
+				okID := ast.NewIdent("vrtOK__")
+				origKey, origVal, tok := n.Key, n.Value, n.Tok
+				mexpr := n.X
+				isBlank := func(e ast.Expr) bool {
+					id, ok := e.(*ast.Ident)
+					return e == nil || (ok && id.Name == "_")
+				}
+				var pre []ast.Stmt
+				valLhs := ast.Expr(ast.NewIdent("_"))
+				if !isBlank(origVal) {
+					valLhs = origVal
+				}
+				if tok == token.ASSIGN {
+					pre = append(pre, &ast.DeclStmt{Decl: &ast.GenDecl{Tok: token.VAR, Specs: []ast.Spec{&ast.ValueSpec{Names: []*ast.Ident{okID}, Type: ast.NewIdent("bool")}}}})
+					pre = append(pre, &ast.AssignStmt{Lhs: []ast.Expr{valLhs, okID}, Tok: token.ASSIGN, Rhs: []ast.Expr{&ast.IndexExpr{X: mexpr, Index: keyID}}})
+				} else {
+					pre = append(pre, &ast.AssignStmt{Lhs: []ast.Expr{valLhs, okID}, Tok: token.DEFINE, Rhs: []ast.Expr{&ast.IndexExpr{X: mexpr, Index: keyID}}})
+				}
+				pre = append(pre, &ast.IfStmt{Cond: &ast.UnaryExpr{Op: token.NOT, X: okID}, Body: &ast.BlockStmt{List: []ast.Stmt{&ast.BranchStmt{Tok: token.CONTINUE}}}})
+				if !isBlank(origKey) {
+					t := token.DEFINE
+					if tok == token.ASSIGN {
+						t = token.ASSIGN
+					}
+					pre = append(pre, &ast.AssignStmt{Lhs: []ast.Expr{origKey}, Tok: t, Rhs: []ast.Expr{keyID}})
+				}
+				n.Key, n.Value, n.Tok = ast.NewIdent("_"), keyID, token.DEFINE
+				n.X = &ast.CallExpr{Fun: &ast.SelectorExpr{X: ast.NewIdent("vrt"), Sel: ast.NewIdent("Keys")}, Args: []ast.Expr{mexpr, site(n)}}
+				n.Body.List = append(pre, n.Body.List...)
 			case *ast.SelectorExpr:
 				s := info.Selections[n]
 				if s == nil || s.Kind() != types.FieldVal {
